@@ -155,9 +155,7 @@ def _check(world: World, host: AppHost, sess: WSSession, msgs: list, expect_ok: 
            app_first: list, limit: int, out: Outcome) -> None:
     cause = "deflate-control-interleave" if "deflate-control-interleave" in sess.flags else "other"
     conn = sess.script.conn
-    if cause == "other" and sess.carrier == "h2" and conn is not None \
-            and len(conn.client.sent) > conn.server._rx_total and conn.server.closed_at is not None \
-            and conn.server.closed_at > 60.0:
+    if cause == "other" and sess.carrier == "h2" and world.reader_push_blocked_at_trigger > 0:
         # the server stopped reading although bytes were pending for a long time: its reader is parked in
         # StreamBuffer.push (a pong / close reply behind a buffer that only a WINDOW_UPDATE - which the
         # reader itself would have to read - can drain): known finding F21
